@@ -1597,3 +1597,53 @@ func checkNextIndexMirrorIsLoopVariable(c *Ctx, rule string) {
 	}
 	c.Floor(rule, "next-index mirror stores in the issuers", n, 4)
 }
+
+// checkMigrationRefusalBeforeWrites: a migration that inspects the existing data and may REFUSE to run (an error
+// coming out of a read-only ForEach over the old rows) does so before it has written anything — in particular
+// before it records the new version. A refusal after the version write reports failure with the version already
+// bumped: whoever commits that transaction has a database stamped "upgraded" that was not.
+func checkMigrationRefusalBeforeWrites(c *Ctx, rule string) {
+	p := c.P
+	ed := newErrDisc(p)
+	n := 0
+	for _, fn := range p.FuncsIn("waddrmgr") {
+		if fn.Parent() != nil || !strings.HasPrefix(fn.Name(), "upgradeToVersion") {
+			continue
+		}
+		for _, b := range fn.Blocks {
+			for _, ins := range b.Instrs {
+				r, ok := ins.(*ssa.Return)
+				if !ok || len(r.Results) == 0 {
+					continue
+				}
+				ev := effectiveResult(r, len(r.Results)-1)
+				fromScan := false
+				for _, o := range errArgSlicer(p).Origins(ev) {
+					if call, ok := o.(*ssa.Call); ok && calleeShort(&call.Call) == "ForEach" {
+						fromScan = true
+					}
+				}
+				if !fromScan {
+					continue
+				}
+				n++
+				q := &PathQuery{Fn: fn, Barrier: func(i ssa.Instruction) bool { return i == ssa.Instruction(r) },
+					Target: func(i ssa.Instruction, _ *ssa.BasicBlock) bool {
+						call, ok := i.(*ssa.Call)
+						return ok && ed.isCarrierSite(call)
+					}}
+				// a write that can be followed by this return
+				bad := false
+				for _, h := range q.From(nil) {
+					q2 := &PathQuery{Fn: fn, Target: func(i ssa.Instruction, _ *ssa.BasicBlock) bool { return i == ssa.Instruction(r) }}
+					if len(q2.From(h.Ins)) > 0 {
+						bad = true
+					}
+				}
+				c.Check(rule, "migration-refusal-precedes-writes:"+fn.Name(), r.Pos(), !bad,
+					fn.Name()+" can refuse the upgrade (error from scanning the existing rows) after it has already written to the database (e.g. recorded the new version): the failure is reported with the version already bumped")
+			}
+		}
+	}
+	c.Floor(rule, "data-dependent refusals in waddrmgr migrations", n, 1)
+}
